@@ -96,6 +96,34 @@ func drainTargeter(tr vegeta.Targeter, ncalls int) []tobs {
 	return out
 }
 
+// eagerAgrees: ReadAllTargets over a fresh targeter returns the targets the call-by-call reading
+// returned (compared as values), when that reading ended in exhaustion without an error
+func eagerAgrees(mk func() vegeta.Targeter, obs []tobs) bool {
+	var want []vegeta.Target
+	for _, o := range obs {
+		if o.kind == 2 {
+			return true // the file has a malformed entry: ReadAllTargets reports the error, nothing to compare
+		}
+		if o.kind == 0 {
+			want = append(want, o.early)
+		}
+	}
+	if len(want) == 0 {
+		return true
+	}
+	got, err := vegeta.ReadAllTargets(mk())
+	if err != nil || len(got) != len(want) {
+		return false
+	}
+	for i := range got {
+		if got[i].Method != want[i].Method || got[i].URL != want[i].URL || !bytes.Equal(got[i].Body, want[i].Body) ||
+			!reflect.DeepEqual(map[string][]string(got[i].Header), map[string][]string(want[i].Header)) {
+			return false
+		}
+	}
+	return true
+}
+
 func (w *W) Obs(obs []tobs) {
 	w.I(len(obs))
 	for _, o := range obs {
@@ -256,6 +284,7 @@ func c14HTTPRaw(idx int, rng *rand.Rand, src string, dh http.Header, db []byte, 
 	for i := range want {
 		w.Target(&want[i])
 	}
+	w.Bool(eagerAgrees(func() vegeta.Targeter { return vegeta.NewHTTPTargeter(strings.NewReader(src), db, cloneHeader(before)) }, obs))
 	c.Tag = "http"
 	if want != nil {
 		c.Tag += ".wf"
@@ -400,6 +429,7 @@ func c14JSON(idx int, rng *rand.Rand) Case {
 	} else {
 		w.I(0)
 	}
+	w.Bool(eagerAgrees(func() vegeta.Targeter { return vegeta.NewJSONTargeter(bytes.NewReader(raw), db, cloneHeader(before)) }, obs))
 	c.Tag = "json"
 	if wellformed {
 		c.Tag += ".wf"
